@@ -214,8 +214,10 @@ def _derived(s, out):
     elif k == 'SAf':
         if (Fraction(s[1]), Fraction(s[2])) != (1, 0) and _contains(s[3], ('tstep',)):
             out.add('tshift')          # a bare polynomial factor under similarity/shift: t u(t) at a t + b
-        if Fraction(s[1]) < 0 and _contains(s[3], ('expu', 'texpu1', 'texpu2', 'reciplin')):
-            out.add('anticausal')      # reversed one-sided exponential: pole in the other half plane
+        if Fraction(s[1]) < 0 and _contains(s[3], ('expu', 'texpu1', 'texpu2')):
+            out.add('anticausal')      # reversed one-sided exponential: its spectrum has the pole in the other half plane
+        if Fraction(s[1]) < 0 and _contains(s[3], ('reciplin',)):
+            out.add('reciplin_rhp')    # 1/(c1 (a f + b) + c0) with a < 0: pole in the other half plane
         _derived(s[3], out)
     elif k == 'SMo':
         if _contains(s[2], ('step', 'sign', 'tstep', 'abs')):
@@ -235,6 +237,8 @@ def sig_feats(s, inverse_dir=False):
             fs_.add('modstep')
         if 'anticausal' in d:
             fs_.add('anticausal')
+        if 'reciplin_rhp' in d:
+            fs_.add('reciplin_rhp')
     return fs_
 
 
@@ -270,6 +274,8 @@ def make_cases(rng, tier, replay=None):
              'ops': [{'op': 'fwd', 'var': 'f'}, {'op': 'rt', 'var': 'f'}], 'oracle': S.support(s) is not None, 'want_input_nf': True})
         add({'kind': 'sig', 'dom': 'f', 'sig': s, 'expr': S.sig_src(s, 'f'), 'tag': 'base',
              'ops': [{'op': 'inv'}], 'oracle': S.support(s) is not None})
+    add({'kind': 'sig', 'dom': 'f', 'sig': ['SAf', '-1', '0', ['SB', 'reciplin', {'c1': ['jtpi', '1'], 'c0': '2'}]],
+         'expr': S.sig_src(['SAf', '-1', '0', ['SB', 'reciplin', {'c1': ['jtpi', '1'], 'c0': '2'}]], 'f'), 'tag': 'base', 'ops': [{'op': 'inv'}], 'oracle': False})
     # polynomial factor times a shifted step / signum (the closure under shifts of t u(t), |t|)
     for tau in ('1', '-1/2'):
         for nm, b1, b0 in (('u', 'tstep', 'step'), ('sign', 'abs', 'sign')):
